@@ -1,13 +1,30 @@
 package main
 
+import "strings"
+
 // C04, C05 and C09 share the daemon world (dworld*.go); each runs it with its own op mix and keeps the
 // monitor violations of its own property.
 func init() {
 	for _, id := range []string{"C04", "C05", "C09"} {
 		id := id
 		register(&Prop{ID: id,
-			Run:   func(c *Ctx) { runDaemonWorld(c, id, nil) },
-			Exec2: func(c *Ctx, ops []string) ([]string, []string) { return runDaemonWorld(c, id, ops) },
+			Run: func(c *Ctx) {
+				runDaemonWorld(c, id, nil)
+				if id == "C05" {
+					// the restart path between the stored records and the pool (storedrec.go)
+					srRun(c, "C05", c.Scale(400, 8000))
+				}
+			},
+			Exec2: func(c *Ctx, ops []string) ([]string, []string) {
+				if len(ops) > 0 && strings.HasPrefix(ops[0], "sr.") {
+					outs := make([]string, len(ops))
+					for i, op := range ops {
+						outs[i] = srExec(c, op)
+					}
+					return ops, outs
+				}
+				return runDaemonWorld(c, id, ops)
+			},
 		})
 	}
 }
